@@ -392,8 +392,27 @@ ADDENDA = {
     "C05": "Also: 255 .. 66 000 owners (and half as many weak references) of one allocation; self-swaps; allocation sizes that cannot be satisfied.",
     "C03": "Also: bucket counts around 2^28 and 2^32 (byte-count overflow), elements with two node members and tables declared over either, container objects initialised on junk-filled memory.",
 }
+ADDENDA2 = {
+    "C01": "Later additions: plain trees 4 100 .. 30 000 levels deep with small subtrees hanging off the chain (walk, height, clear); thorough tier only: one tree driven through 2^32-1, 2^32 and 2^32+1 modifications in a row before the next lookup / unhinted insert.",
+    "C03": "Later additions: tables on cstl_hash_div / cstl_hash_mul passed by name with keys from the whole of size_t; clear without a callback; chains of 100 000 .. 600 000 elements in 1-3 buckets rehashed.",
+    "C07": "Later additions: two different comparison functions (not only private pointers) per run, moving with swap; elements written through the pointer pop / get returned and read through their own name in optimised callers.",
+    "C11": "Later additions: element sizes up to 5 000 bytes at every alignment; virtual arrays up to SSIZE_MAX elements.",
+    "C12": "Later additions: keys of linked elements changed between two sorts; concat between lists over different members (refused); thorough tier only: lists of 2^23 .. 2^26 elements sorted, checked for order, stability, permutation and links.",
+    "C13": "Later additions: keys of linked elements changed between two sorts; concat between lists over different members (refused); thorough tier only: lists of 2^23 .. 2^26 elements sorted, checked for order, stability, permutation and tail.",
+    "C15": "Later additions: clear of plain trees 4 100 .. 30 000 levels deep, every element handed over exactly once.",
+    "C19": "Later additions: a per-operation bound in executed basic blocks of library code (work variant): one keyed operation may cost its own chains, three buckets' contents and the already-clean buckets the sweep may step over.",
+    "C09": "Later additions: one function registered as both constructor and destructor; vectors of different element sizes swapped; thorough tier only: a real vector resized across 2^32 elements with counting callbacks.",
+}
 for _p, _t in ADDENDA.items():
     MANIFEST_TEXT[_p]["text"] += " " + _t
+for _p, _t in ADDENDA2.items():
+    MANIFEST_TEXT[_p]["text"] += " " + _t
+GENERIC_ADDENDUM = (" In every world with intrusive elements or library allocations three things vary per run: where the element blocks live (one arena; one page each 2^32 bytes apart; "
+                    "3*2^31 bytes apart), whether the allocator hands a freed block out again at once, and whether containers start from the init functions or from the static initializer macros. "
+                    "Callback-taking functions and functions that return the caller's element are also called from small optimised functions without setjmp, so that attributes on the prototypes "
+                    "(leaf, pure, const, malloc) that promise more than the functions keep are seen.")
+for _p in ("C01", "C02", "C03", "C04", "C07", "C08", "C12", "C13", "C15"):
+    MANIFEST_TEXT[_p]["text"] += GENERIC_ADDENDUM
 
 # ------------------------------------------------------------- thread compatibility on distinct objects (world "par")
 # Two or three simulated threads, each with containers of its own, interleaved INSIDE library functions at basic-block
